@@ -7,6 +7,7 @@ import Proofs.LeftDeriv
 import Proofs.LeftQuirk
 import Proofs.LeftSubsume
 import Proofs.LeftReveal
+import Proofs.LeftRevealB
 import Proofs.WellFormed
 /-! C08 — Chart-state scoring equals left-to-right scoring for every derivation.
 
@@ -234,6 +235,30 @@ theorem reveal_after_whole_minus_parts (a : Arpa) (wf : WellFormed a) (hp : Cont
   obtain ⟨L₂, G₂⟩ := derivation_frag a (build a) H R r₂ (ValidWords.append_right hv)
   obtain ⟨L, G⟩ := derivation_frag a (build a) H R r (by rw [hy]; exact hv)
   obtain ⟨L', right', G'⟩ := revealAfterAll_frag H R G₁ G₂
+  rw [hy] at G
+  have := (frag_unique R (xlSound_build a) G G').2
+  rw [this]; grind
+
+/-- **RevealBefore, incrementally**: revealing the words of a preceding fragment `B`'s right state to a fragment `M` one
+call at a time (`reveal.length = k+1`, `seen = k`) and finally `reveal_full` if `B`'s left state is full — the protocol of
+`lm/partial_test.cc` — leaves, as `M`'s left pointers, the left pointers of `B ++ M` beyond those of `B`, and the
+accumulated adjustments make up the canonical score of `B ++ M`. -/
+theorem reveal_before (a : Arpa) (T : Table) (H : Hyp a T) (R : Ptr → Rat) (B : List Word) (Lb : Nat) (cB : Chart) (pB : Rat)
+    (GB : FragC a T R B Lb cB pB) (M : List Word) (Lm : Nat) (cM : Chart) (pM : Rat) (GM : FragC a T R M Lm cM pM) :
+    ∃ L' c', c'.left.pointers = cB.left.pointers ++ (revealBeforeAll T R cB cM).1.pointers ∧
+      FragC a T R (B ++ M) L' c' (pB + pM + (revealBeforeAll T R cB cM).2.2) := revealBeforeAll_frag H R GB GM
+
+/-- … so that **the accumulated adjustment is exactly whole − parts**, for all derivations of the parts and the whole -/
+theorem reveal_before_whole_minus_parts (a : Arpa) (wf : WellFormed a) (hp : ContextsOnlyBackoff a) (R : Ptr → Rat) (r₁ r₂ r : Rule)
+    (hy : r.yield = r₁.yield ++ r₂.yield) (hv : ValidWords a r.yield) :
+    (revealBeforeAll (build a) R (ruleScore (build a) R none r₁).1 (ruleScore (build a) R none r₂).1).2.2 =
+      (ruleScore (build a) R none r).2 - (ruleScore (build a) R none r₁).2 - (ruleScore (build a) R none r₂).2 := by
+  have H := hyp_build a wf hp
+  rw [hy] at hv
+  obtain ⟨L₁, G₁⟩ := derivation_frag a (build a) H R r₁ (ValidWords.append_left hv)
+  obtain ⟨L₂, G₂⟩ := derivation_frag a (build a) H R r₂ (ValidWords.append_right hv)
+  obtain ⟨L, G⟩ := derivation_frag a (build a) H R r (by rw [hy]; exact hv)
+  obtain ⟨L', c', _, G'⟩ := revealBeforeAll_frag H R G₁ G₂
   rw [hy] at G
   have := (frag_unique R (xlSound_build a) G G').2
   rw [this]; grind
